@@ -34,7 +34,12 @@ CLAIM = dict(
     text="Lean theorems (any field, any finite face/cell index sets, abstract divergence D, arbitrary pinned cell): "
     "flux_reduced_equiv (full block system <=> Schur-complement system + flux formula, W diagonal invertible), "
     "pressure_equiv (under 1^T D = 0, zero-mean source, zero last rhs entry: reduced system <=> pinned pure-pressure system "
-    "with p_k = 0, lambda = 0 - the side conditions the code relies on), full_iff_pinned; dispatch theorems decided over the "
+    "with p_k = 0, lambda = 0 - the side conditions the code relies on), full_iff_pinned; BRIDGE to the executable model the driver "
+    "runs (every matrix tabulated from an entry formula over Q): model_full_is_abstract / model_reduced_is_abstract / "
+    "model_pinned_rows identify assembleFull, eliminateFlux, eliminateMultiplier with the abstract operators on Fin nf, Fin nc, and "
+    "model_linearSolve_sound proves that for each formulation the vector the model returns solves the assembled full system (inner "
+    "solve correctness is an explicit hypothesis = the back-end contract); 1^T D = 0 for the finite-volume divergence of any tensor "
+    "grid is imported from C06 (div_column_sum_zero), giving model_linearSolve_sound_fv; dispatch theorems decided over the "
     "acceptance matrix re-tabulated from the running code on every run (every documented formulation constructs and completes a "
     "linear_solve with the direct back-end, 'pressure' with all three back-ends, no accepted spelling falls through the "
     "branches); the hand-written CSC row/column removal is modelled array-operation by array-operation (np.arange/where/unique/"
